@@ -329,8 +329,7 @@ def check(tier, replay=None):
         bins, log, wall = tieb.build("c12", mods)
         r.cov["harness_build_s"] = round(wall, 1)
         if bins is None:
-            r.violation({"kind": "obligation-broken", "no_longer_checks": ["generated programs of group c12 do not compile against the repository"],
-                         "log": log[-3000:]}, no_input=True)
+            tieb.report_build_failure(r, "c12", mods, log)
             return r.finish(TRUSTED)
         lines, pids = [], []
         for pid, tw in progs.items():
